@@ -196,6 +196,9 @@ class _Num(object):
 
 def _cmp(op):
     def f(self, o):
+        if isinstance(o, float) and math.isinf(o):
+            # finite symbolic value against +-inf
+            return bool(op(0.0, o))
         if isinstance(self, SInt) and _is_intlike(o):
             a, b = self.t, to_int(o)
         else:
@@ -433,6 +436,12 @@ def _minmax(args, ismax):
         args = list(args[0])
     if not any(is_sym(a) for a in args):
         return (max if ismax else min)(args)
+    # concrete infinities against finite symbolic values
+    absorbing = float("inf") if ismax else float("-inf")
+    neutral = -absorbing
+    if any(isinstance(a, float) and a == absorbing for a in args):
+        return absorbing
+    args = [a for a in args if not (isinstance(a, float) and a == neutral)]
     res = args[0]
     for a in args[1:]:
         if not is_sym(a) and not is_sym(res):
